@@ -1144,8 +1144,12 @@ impl<'a, I, A> Strategies<'a, I, A> {
                 infos.iter().map(|info| info.num_actions()),
             ) {
                 let total: f64 = strat.iter().filter(|p| p > &&thresh).sum();
-                for p in strat.iter_mut() {
-                    *p = if *p > thresh { *p / total } else { 0.0 }
+                // if no action is played more than `thresh` keep the infoset as it is, there's
+                // nothing left to renormalize
+                if total > 0.0 {
+                    for p in strat.iter_mut() {
+                        *p = if *p > thresh { *p / total } else { 0.0 }
+                    }
                 }
             }
         }
